@@ -49,7 +49,7 @@ type AppSpec struct {
 type Action struct {
 	At      string `json:"at"`    // apphash | offer | apply | after-apply
 	Call    int    `json:"call"`  // call number of that kind
-	Kind    string `json:"kind"`  // push | stop | readv | flush | reconnect (leave if still connected, come back under the same node key, advertise Snap)
+	Kind    string `json:"kind"`  // push | push-async (hold does not wait for the delivery) | stop | readv | flush | reconnect (leave if still connected, come back under the same node key, advertise Snap)
 	Peer    int    `json:"peer"`  // liar index; -1 = sender of the chunk of this call, -2 = sender most recently rejected by the app, -3 = some other honest connected peer
 	Rel     int    `json:"rel"`   // push: index = current index + rel (mod chunks)
 	Bytes   string `json:"bytes"` // push: right | wrong
@@ -209,6 +209,10 @@ func genScenario(r *rand.Rand, verifSeed, sub int64, stream string, idx int) *Sc
 			Bytes: []string{"right", "wrong"}[r.Intn(2)], DelayMs: []int{0, 1, 5, 30, 80}[r.Intn(5)], Count: 1 + r.Intn(3)})
 		if r.Intn(2) == 0 {
 			s.Actions = append(s.Actions, Action{At: "after-apply", Call: call, Kind: "push", Peer: -1, Rel: 1, Bytes: "wrong", DelayMs: 10, Count: 1})
+		}
+		if r.Intn(2) == 0 {
+			// a chunk of the same sender is in flight while the rejecting response is handled
+			s.Actions = append(s.Actions, Action{At: "apply", Call: call, Kind: "push-async", Peer: -1, Rel: r.Intn(2), Bytes: "right", Count: 1})
 		}
 	}
 	if rc("blacklist") {
